@@ -8,6 +8,7 @@ package yubiattest
 //vsym:model (crypto.Hash).Available m06aAvailable
 //vsym:model (crypto.Hash).New m06aNew
 //vsym:model (*crypto/x509.Certificate).Verify m06aCertVerify
+//vsym:model time.Now m06aNow
 //vsym:model (*math/big.Int).String m06aBigString
 //vsym:model (crypto/x509/pkix.Name).String m06aNameString
 //vsym:replay none
@@ -85,6 +86,16 @@ type m06aVerifyCall struct {
 
 var m06aVerifyCalls []m06aVerifyCall
 var m06aChainOK bool
+
+// the clock: some instant inside the device certificate's window (a stored
+// instant is visible as a non-zero CurrentTime in the options)
+// every reading is later than the one before
+var m06aTicks int64
+
+func m06aNow() time.Time {
+	m06aTicks++
+	return time.Unix(1500+m06aTicks, 0)
+}
 
 func m06aCertVerify(c *x509.Certificate, opts x509.VerifyOptions) ([][]*x509.Certificate, error) {
 	m06aVerifyCalls = append(m06aVerifyCalls, m06aVerifyCall{c, opts})
@@ -171,11 +182,14 @@ func H06_attest() {
 	pool := x509.NewCertPool()
 	a := NewAttestorWithCAPool(pool)
 	devKey := &rsa.PublicKey{N: new(big.Int), E: 65537}
-	f9 := &x509.Certificate{PublicKey: devKey, RawTBSCertificate: []byte("f9-tbs"), Signature: []byte("f9-sig"), SignatureAlgorithm: x509.SHA256WithRSA}
+	// the device certificate itself is signed with another algorithm than the slot certificate
+	f9 := &x509.Certificate{PublicKey: devKey, RawTBSCertificate: []byte("f9-tbs"), Signature: []byte("f9-sig"), SignatureAlgorithm: x509.SHA512WithRSA}
 	tbs := vNondetBytes("slot-tbs", 2)
 	sig := vNondetBytes("slot-sig", 2)
 	slot := &x509.Certificate{PublicKey: &rsa.PublicKey{N: new(big.Int), E: 3}, RawTBSCertificate: tbs, Signature: sig, SignatureAlgorithm: x509.SHA256WithRSA,
 		NotBefore: time.Unix(1000, 0), NotAfter: time.Unix(2000, 0)}
+	m06aNow() // time passes between construction and use
+	called := m06aNow().Unix()
 	err := a.Attest(f9, slot)
 	vAssert((err == nil) == (m06aChainOK && m06aVerdict), "C06.attest-needs-chain-and-signature")
 	// the device certificate was verified against the attestor's pool, at the current time
@@ -183,7 +197,8 @@ func H06_attest() {
 	if len(m06aVerifyCalls) >= 1 {
 		o := m06aVerifyCalls[0].opts
 		vAssert(o.Roots == pool, "C06.chain-verified-against-the-configured-roots")
-		vAssert(o.CurrentTime.IsZero(), "C06.chain-verified-at-the-current-time")
+		// the zero value means "now" to crypto/x509; an explicit instant must have been read during this call
+		vAssert(o.CurrentTime.IsZero() || o.CurrentTime.Unix() > called, "C06.chain-verified-at-the-current-time")
 		vAssert(o.Intermediates == nil && o.DNSName == "", "C06.no-foreign-intermediates")
 	}
 	if !m06aChainOK {
